@@ -5,6 +5,11 @@
 // tolerances per bucket of target bytes per frame: <5, <10, <20, <40, <80, >=80  (see calib/thresholds.json)
 #define CVBR_TOL_CELT 0.65, 0.42, 0.22, 0.12, 0.06, 0.05
 #define CVBR_TOL_SILK 2.40, 2.40, 2.40, 2.40, 2.40, 2.40
+// SILK / hybrid cells: bitrate <= 12k, <= 16k, <= 24k, > 24k
+#define CVBR_SILK_NOHYB_T 2.60, 0.80, 0.42, 0.31
+#define CVBR_SILK_NOHYB_O 2.60, 0.66, 0.16, 0.10
+#define CVBR_SILK_HYB_T   2.60, 1.48, 1.48, 1.48
+#define CVBR_SILK_HYB_O   2.60, 0.40, 0.35, 0.20
 struct LockstepExec {
   Run &run; std::string prop;
   Session S;
@@ -36,8 +41,11 @@ struct LockstepExec {
     if (run.stat[k] < milli) run.stat[k] = milli;
     if (getenv("OPSIM_CALIB")) fprintf(stderr, "CVBRSEG %s ratio=%.4f bitrate=%d fs=%d ch=%d frames=%ld secs=%.2f bytes_per_frame=%.1f mask=%d tonal=%.2f app=%d src=%d amp=%lld cplx=%d force=%d sig=%d fec=%d loss=%d bw=%d maxbw=%d fch=%d\n", fam, ratio, m_bitrate, S.enc.L.fs, S.enc.L.ch, seg_frames, seg_secs, bpf,
         seg_mode_mask, seg_tonal_secs / seg_secs, S.enc.L.app, S.src.fam, (long long)S.src.amp, mset(OPUS_SET_COMPLEXITY_REQUEST, -1), mset(11002, -1), mset(OPUS_SET_SIGNAL_REQUEST, -1), mset(OPUS_SET_INBAND_FEC_REQUEST, -1), mset(OPUS_SET_PACKET_LOSS_PERC_REQUEST, -1), mset(OPUS_SET_BANDWIDTH_REQUEST, -1), mset(OPUS_SET_MAX_BANDWIDTH_REQUEST, -1), mset(OPUS_SET_FORCE_CHANNELS_REQUEST, -1));
-    double tol = cvbr_tolerance(fam, bpf);
+    bool silkfam = seg_mode_mask != 4;
+    double tonal = seg_tonal_secs / seg_secs;
+    double tol = silkfam ? cvbr_tolerance_silk(m_bitrate, (seg_mode_mask & 2) != 0, tonal) : cvbr_tolerance(fam, bpf);
     run.count("cvbr_checked");
+    if (silkfam && m_bitrate > 16000 && tonal < 0.5) run.count("cvbr_checked_silk_sharp");
     if (ratio > 1.0 + tol)
       REPORT(run, prop, std::string("cvbr_longterm_rate_exceeded_") + fam, "mean %.0f b/s over %.1f s vs target %d (ratio %.3f > %.3f, %.1f target bytes/frame)", seg_bits / seg_secs, seg_secs, m_bitrate, ratio, 1.0 + tol, bpf);
   }
@@ -47,6 +55,16 @@ struct LockstepExec {
     static const double celt[6] = {CVBR_TOL_CELT}, silk[6] = {CVBR_TOL_SILK};
     int b = bpf < 5 ? 0 : bpf < 10 ? 1 : bpf < 20 ? 2 : bpf < 40 ? 3 : bpf < 80 ? 4 : 5;
     return !strcmp(fam, "celt") ? celt[b] : silk[b];
+  }
+  // SILK / hybrid segments: SILK only steers towards the target, and how far it stays above it depends on the rate (below ~12 kb/s
+  // the floor of the side information dominates) and on the material (steady tonal / periodic input, on which its open-loop rate
+  // estimate is at its worst; hybrid adds the MDCT layer's share). Tolerance per (bitrate band, any hybrid packet, mostly tonal) cell,
+  // >= 2x the worst excess observed in that cell (calib/thresholds.json, C05.cvbr.silkhyb_cells).
+  static double cvbr_tolerance_silk(int bitrate, bool hyb, double tonal) {
+    static const double nohyb_T[4] = {CVBR_SILK_NOHYB_T}, nohyb_o[4] = {CVBR_SILK_NOHYB_O}, hyb_T[4] = {CVBR_SILK_HYB_T}, hyb_o[4] = {CVBR_SILK_HYB_O};
+    int b = bitrate <= 12000 ? 0 : bitrate <= 16000 ? 1 : bitrate <= 24000 ? 2 : 3;
+    bool T = tonal >= 0.5;
+    return hyb ? (T ? hyb_T[b] : hyb_o[b]) : (T ? nohyb_T[b] : nohyb_o[b]);
   }
   void op_ctl(const Op &op) {
     if (!S.enc.alive()) return;
